@@ -205,23 +205,29 @@ var FakeEpoch = time.Date(2000, 1, 1, 0, 0, 0, 0, time.UTC)
 // goroutine leaked by a packager makes synctest panic at the end of the
 // bubble; that is reported as leaked=true, not as a crash.
 func (rt *Runtime) InBubble(offset time.Duration, f func()) (leaked bool) {
-	defer func() {
-		if r := recover(); r != nil {
-			msg := fmt.Sprint(r)
-			if strings.Contains(msg, "deadlock") || strings.Contains(msg, "blocked") {
-				leaked = true
-				return
+	// The bubble lives in a subtest: when the race detector reports during
+	// the bubble, testing fails that (sub)test and FailNow()s out of
+	// synctest.Test; in a subtest this ends only the subtest goroutine and
+	// the worker goes on to write its result.
+	rt.T.Run("bubble", func(t *testing.T) {
+		defer func() {
+			if r := recover(); r != nil {
+				msg := fmt.Sprint(r)
+				if strings.Contains(msg, "deadlock") || strings.Contains(msg, "blocked") {
+					leaked = true
+					return
+				}
+				panic(r)
 			}
-			panic(r)
-		}
-	}()
-	synctest.Test(rt.T, func(*testing.T) {
-		if offset > 0 {
-			time.Sleep(offset)
-		}
-		f()
+		}()
+		synctest.Test(t, func(*testing.T) {
+			if offset > 0 {
+				time.Sleep(offset)
+			}
+			f()
+		})
 	})
-	return false
+	return leaked
 }
 
 // SimNow: the simulated instant at which every non-C07 build runs (after the
